@@ -70,6 +70,9 @@ func (m *Module) HandleDagazQuadSample(ctx context.Context, msg hwebsocket.Msg) 
 			WithTag("msg_type", msg.Type)
 	}
 
+	m.state.mutex.Lock()
+	defer m.state.mutex.Unlock()
+
 	for _, newQuad := range newQuadSample.Samples {
 		quad := NewQuadFromProtobuf(newQuad)
 		m.state.SpatialPartition.InsertQuad(quad)
@@ -92,6 +95,8 @@ func (m *Module) HandleDagazGetGroundPlane(ctx context.Context, respond hwebsock
 	}
 
 	ray := NewRayFromProtobuf(req.Ray)
+
+	m.state.mutex.Lock()
 	quadHit, _ := m.state.SpatialPartition.IntersectQuad(ray)
 
 	if quadHit == nil {
@@ -103,6 +108,7 @@ func (m *Module) HandleDagazGetGroundPlane(ctx context.Context, respond hwebsock
 		}
 	}
 	sampleGroundQuad := quadHit.ToProtobuf()
+	m.state.mutex.Unlock()
 
 	respond.Send(&dagazpb.DagazGetGroundPlaneResponse{
 		Type:      dagazpb.MsgType_MSG_TYPE_DAGAZ_GET_GROUND_PLANE_RESPONSE,
@@ -126,11 +132,15 @@ func (m *Module) HandleDagazGetRegion(ctx context.Context, respond hwebsocket.Re
 			WithTag("msg_type", msg.Type)
 	}
 
-	regionQuads := m.state.SpatialPartition.GetRegion(NewVector3fFromProtobuf(req.Min), NewVector3fFromProtobuf(req.Max))
+	min, max := NewVector3fFromProtobuf(req.Min), NewVector3fFromProtobuf(req.Max)
+
+	m.state.mutex.Lock()
+	regionQuads := m.state.SpatialPartition.GetRegion(min, max)
 	regionQuadsProtobuf := make([]*dagazpb.Quad, len(regionQuads))
 	for i := 0; i < len(regionQuads); i++ {
 		regionQuadsProtobuf[i] = regionQuads[i].ToProtobuf()
 	}
+	m.state.mutex.Unlock()
 
 	respond.Send(&dagazpb.DagazGetRegionResponse{
 		Type:      dagazpb.MsgType_MSG_TYPE_DAGAZ_GET_REGION_RESPONSE,
@@ -154,7 +164,9 @@ func (m *Module) HandleDagazGetDebugInfo(ctx context.Context, respond hwebsocket
 			WithTag("msg_type", msg.Type)
 	}
 
+	m.state.mutex.Lock()
 	debugInfo := m.state.SpatialPartition.GetDebugInfo()
+	m.state.mutex.Unlock()
 
 	respond.Send(&dagazpb.DagazGetDebugInfoResponse{
 		Type:           dagazpb.MsgType_MSG_TYPE_DAGAZ_GET_DEBUG_INFO_RESPONSE,
